@@ -100,11 +100,26 @@ def main():
                     named.append({"mechanism": mech["name"][:60], "file": rel.strip(), "name": m.group(1),
                                   "found": bool(cands), "reached": any(c["executed_lines"] for c in cands),
                                   "executed_fraction": (max(c["executed_lines"] / c["body_lines"] for c in cands) if cands else None)})
+        # every library function the workload entered (for the union over all checks)
+        entered = []
+        for dirpath, _dn, fns in os.walk(os.path.join(REPO, "renormalizer")):
+            if "tests" in dirpath.split(os.sep):
+                continue
+            for fn_ in fns:
+                if not fn_.endswith(".py"):
+                    continue
+                path = os.path.join(dirpath, fn_)
+                lines = set(data.lines(path) or [])
+                if not lines:
+                    continue
+                for name, lo, hi, body in functions(path):
+                    if body and any(l in lines for l in body):
+                        entered.append(os.path.relpath(path, REPO) + ":" + name)
         shutil.rmtree(d, ignore_errors=True)
         ev = os.path.join(ROOT, "evidence", pid + ".json.reach")
         if os.path.exists(ev):
             os.remove(ev)
-        json.dump({"property": pid, "tier": a.tier, "check_exit": r.returncode, "named_mechanism_functions": named, "functions": rows}, open(os.path.join(a.out, pid + ".json"), "w"), indent=1)
+        json.dump({"property": pid, "tier": a.tier, "check_exit": r.returncode, "named_mechanism_functions": named, "functions": rows, "entered_anywhere_in_the_library": sorted(entered)}, open(os.path.join(a.out, pid + ".json"), "w"), indent=1)
         summary[pid] = (nf, nr, r.returncode)
         print(pid, "exit", r.returncode, "functions", nf, "reached", nr, "| named", len(named), "not reached:", [n["name"] for n in named if not n["reached"]], flush=True)
     write_md(a.out)
@@ -134,6 +149,21 @@ def write_md(out):
         lines.append(f"Functions of the anchor files entered: {len(rows) - len(never)} of {len(rows)}.  Never entered: " +
                      ", ".join(f"`{os.path.basename(r['file'])}:{r['function']}`" for r in never))
         lines.append("")
+    union = set()
+    for fn in sorted(os.listdir(out)):
+        if fn.endswith(".json"):
+            union.update(json.load(open(os.path.join(out, fn))).get("entered_anywhere_in_the_library", []))
+    anchor_files = sorted({f for l in open(os.path.join(ROOT, "properties.jsonl")) for f in json.loads(l)["anchors"]["files"]})
+    lines.append("## Functions of the anchor files that NO check enters")
+    lines.append("")
+    for rel in anchor_files:
+        path = os.path.join(REPO, rel)
+        if not os.path.exists(path):
+            continue
+        miss = [name for name, lo, hi, body in functions(path) if body and (rel + ":" + name) not in union]
+        allf = [name for name, lo, hi, body in functions(path) if body]
+        lines.append(f"- `{rel}` ({len(allf) - len(miss)} of {len(allf)} entered): " + (", ".join(f"`{m}`" for m in miss) if miss else "all entered"))
+    lines.append("")
     open(os.path.join(out, "REACH.md"), "w").write("\n".join(lines))
 
 
